@@ -43,6 +43,27 @@ TARGETS = [
     ("wallet_utils.py", "Bip32Path.convert_hardened", "convert_hardened", [("str_int", "List Char")],
      "Option Nat", {"option": True, "strings": ["str_int", "digits"]}),
     ("wallet_utils.py", "Bip32Path.is_hardened", "is_hardened", [("num", "Nat")], "Bool", {}),
+    # ---- second batch: Base58 (C10), byte/int helpers, BIP39 sentence construction (C04)
+    ("helper.py", "little_endian_to_int", "little_endian_to_int", [("b", "Bytes")], "Nat", {}),
+    ("helper.py", "big_endian_to_int", "big_endian_to_int", [("b", "Bytes")], "Nat", {}),
+    ("helper.py", "int_to_big_endian", "int_to_big_endian", [("n", "Nat"), ("length", "Nat")],
+     "Option Bytes", {"option": True}),
+    ("helper.py", "encode_base58", "encode_base58", [("data", "Bytes")], "List Char",
+     {"while_fuel": "num + 1", "strings": ["prefix", "result"]}),
+    ("helper.py", "decode_base58", "decode_base58", [("s", "List Char")], "Option Bytes",
+     {"option": True, "strings": ["s", "h"], "lists": ["res"]}),
+    ("helper.py", "encode_base58_checksum", "encode_base58_checksum", [("data", "Bytes")], "List Char",
+     {"extra": [("hash256", "Bytes → Bytes")]}),
+    ("helper.py", "decode_base58_checksum", "decode_base58_checksum", [("s", "List Char")], "Option Bytes",
+     {"option": True, "extra": [("hash256", "Bytes → Bytes")], "lists": ["num_bytes", "checksum"]}),
+    ("helper.py", "b58decode_addr", "b58decode_addr", [("s", "List Char")], "Option Bytes",
+     {"option": True, "extra": [("hash256", "Bytes → Bytes")]}),
+    ("bip39.py", "correct_entropy_bits_value", "correct_entropy_bits_value", [("entropy_bits", "Nat")],
+     "Option Unit", {"option": True}),
+    ("bip39.py", "mnemonic_from_entropy", "mnemonic_from_entropy", [("entropy", "List Char")],
+     "Option (List Char)", {"option": True, "extra": [("sha256", "Bytes → Bytes")],
+                            "strings": ["checksum", "entropy_checksum"],
+                            "lists": ["entropy_bytes", "sha256_entropy_bytes", "bin_indexes", "indexes", "mnemonic_lst"]}),
 ]
 
 # names of module-level constants / enum members -> Lean terms
@@ -51,12 +72,17 @@ GLOBALS = {
     "CHARSET": "Generated.charset",
     "CORRECT_MNEMONIC_LENGTH": "Generated.correctMnemonicLength",
     "CORRECT_ENTROPY_BITS": "Generated.correctEntropyBits",
+    "BASE58_ALPHABET": "Generated.base58Alphabet",
     "Encoding.BECH32": "Bech32.Encoding.bech32",
     "Encoding.BECH32M": "Bech32.Encoding.bech32m",
     "None": "none",
 }
 OPTION_FUNCS = {t[2] for t in TARGETS if t[5].get("option")}
 KNOWN_FUNCS = {t[1].split(".")[-1]: t[2] for t in TARGETS}
+EXTRA_PARAMS = {t[2]: [a for a, _ in t[5].get("extra", [])] for t in TARGETS}
+STRING_GLOBALS = {"BASE58_ALPHABET", "CHARSET"}
+LISTY_FUNCS = {"bech32_hrp_expand", "int_to_little_endian", "bech32_create_checksum", "int_to_big_endian",
+               "decode_base58", "decode_base58_checksum", "encode_base58", "encode_base58_checksum", "hash256", "sha256"}
 
 
 class Unsupported(Exception):
@@ -77,6 +103,8 @@ class Fn:
         self.nat_subs = []
         self.bools = {a for a, t in args if t == "Bool"}
         self.declared = [set(a for a, _ in args)]
+        self.extra = opts.get("extra", [])
+        self.extra_names = {a for a, _ in self.extra}
 
     # ---------------------------------------------------------------- expressions
     def is_listy(self, e):
@@ -88,12 +116,32 @@ class Fn:
             return True
         if isinstance(e, ast.BinOp) and isinstance(e.op, ast.Add):
             return self.is_listy(e.left) or self.is_listy(e.right)
-        if isinstance(e, ast.Call) and isinstance(e.func, ast.Name) and e.func.id in (
-                "bech32_hrp_expand", "int_to_little_endian", "bech32_create_checksum"):
+        if isinstance(e, ast.Call) and isinstance(e.func, ast.Name) and e.func.id in LISTY_FUNCS:
             return True
+        if isinstance(e, ast.BinOp) and isinstance(e.op, ast.Mult) and isinstance(e.left, ast.Constant) and \
+                isinstance(e.left.value, (bytes, str)):
+            return True
+        if self.is_char(e):
+            return True
+        if isinstance(e, ast.IfExp):
+            return self.is_listy(e.body) or self.is_listy(e.orelse)
         if isinstance(e, ast.Subscript) and isinstance(e.slice, ast.Slice):
             return True
         return False
+
+    def is_char(self, e):
+        """a one-character string value: `STR[i]` of a string global / variable, or a 1-character literal"""
+        if isinstance(e, ast.Constant) and isinstance(e.value, str) and len(e.value) == 1:
+            return True
+        if isinstance(e, ast.Subscript) and not isinstance(e.slice, ast.Slice) and isinstance(e.value, ast.Name) and \
+                (e.value.id in STRING_GLOBALS or e.value.id in self.strings):
+            return True
+        return False
+
+    def as_list(self, e):
+        """expression as a list (a character becomes a one-element list)"""
+        t = self.expr(e)
+        return "[%s]" % t if self.is_char(e) else t
 
     def expr(self, e):
         if isinstance(e, ast.Constant):
@@ -124,7 +172,12 @@ class Fn:
             raise Unsupported("attribute " + q)
         if isinstance(e, ast.BinOp):
             if isinstance(e.op, ast.Add) and self.is_listy(e):
-                return "(%s ++ %s)" % (self.expr(e.left), self.expr(e.right))
+                return "(%s ++ %s)" % (self.as_list(e.left), self.as_list(e.right))
+            if isinstance(e.op, ast.Mult) and isinstance(e.left, ast.Constant) and isinstance(e.left.value, (bytes, str)) \
+                    and len(e.left.value) == 1:
+                v = e.left.value
+                elem = "(Char.ofNat %d)" % ord(v) if isinstance(v, str) else "(%d : UInt8)" % v[0]
+                return "(List.replicate %s %s)" % (self.expr(e.right), elem)
             if isinstance(e.op, ast.Pow):
                 return "(%s ^ %s)" % (self.expr(e.left), self.expr(e.right))
             if isinstance(e.op, ast.Div):
@@ -148,8 +201,22 @@ class Fn:
             g = e.generators[0]
             if not isinstance(g.target, ast.Name):
                 raise Unsupported("comprehension target")
+            if isinstance(e.elt, ast.Subscript) and isinstance(e.elt.value, ast.Name) and e.elt.value.id == "word_list" \
+                    and isinstance(e.elt.slice, ast.Name) and e.elt.slice.id == g.target.id:
+                if not self.option:
+                    raise Unsupported("word_list lookup in total function")
+                return "(← (%s).mapM Bip39.wordAt)" % self.iterable(g.iter)      # IndexError -> none
             return "((%s).map (fun %s => %s))" % (self.iterable(g.iter), self.ident(g.target.id), self.expr(e.elt))
         if isinstance(e, ast.Subscript):
+            if isinstance(e.slice, ast.Slice) and isinstance(e.value, ast.Call) and isinstance(e.value.func, ast.Name) \
+                    and e.value.func.id in ("hex", "bin") and e.slice.upper is None and e.slice.step is None \
+                    and isinstance(e.slice.lower, ast.Constant) and e.slice.lower.value == 2:
+                # hex(n)[2:] / bin(n)[2:] for n >= 0: the digits without the 0x / 0b prefix
+                fn = "Py.hexStr" if e.value.func.id == "hex" else "Bip39.binStr"
+                return "(%s %s)" % (fn, self.expr(e.value.args[0]))
+            if isinstance(e.slice, ast.Slice) and e.slice.upper is None and e.slice.step is None and \
+                    isinstance(e.slice.lower, ast.UnaryOp) and isinstance(e.slice.lower.op, ast.USub):
+                return "(lastN %s %s)" % (self.expr(e.slice.lower.operand), self.expr(e.value))
             base = self.expr(e.value)
             if isinstance(e.slice, ast.Slice):
                 lo = self.expr(e.slice.lower) if e.slice.lower is not None else None
@@ -194,9 +261,17 @@ class Fn:
                 if isinstance(a, ast.Name):
                     return self.expr(a)
                 raise Unsupported("int() of " + ast.unparse(a))
+            if f.id == "int" and len(e.args) == 2 and isinstance(e.args[1], ast.Constant) and e.args[1].value == 2:
+                return "(Bip39.binVal %s)" % self.expr(e.args[0])       # int(s, 2) of a string of 0/1
+            if f.id in self.extra_names:                                  # a primitive passed in as a parameter
+                return "(%s %s)" % (f.id, " ".join(self.expr(a) for a in e.args))
             if f.id in KNOWN_FUNCS:
                 lean = KNOWN_FUNCS[f.id]
-                args = [self.expr(a) for a in e.args] + [self.expr(k.value) for k in e.keywords]
+                for x in EXTRA_PARAMS.get(lean, []):
+                    if x not in self.extra_names:
+                        raise Unsupported("callee %s needs the primitive %s" % (f.id, x))
+                args = EXTRA_PARAMS.get(lean, []) + [self.expr(a) for a in e.args] + \
+                    [self.expr(k.value) for k in e.keywords]
                 txt = "(%s %s)" % (lean, " ".join(args))
                 if lean in OPTION_FUNCS:
                     if not self.option:
@@ -205,6 +280,28 @@ class Fn:
                 return txt
             raise Unsupported("call " + f.id)
         if isinstance(f, ast.Attribute):
+            if f.attr == "from_bytes" and isinstance(f.value, ast.Name) and f.value.id == "int" and len(e.args) == 2 \
+                    and isinstance(e.args[1], ast.Constant):
+                fn = {"little": "leToNat", "big": "beToNat"}[e.args[1].value]
+                return "(%s %s)" % (fn, self.expr(e.args[0]))
+            if f.attr == "fromhex" and isinstance(f.value, ast.Name) and f.value.id == "bytes" and len(e.args) == 1:
+                if not self.option:
+                    raise Unsupported("bytes.fromhex in total function")
+                return "(← fromHex %s)" % self.expr(e.args[0])
+            if f.attr == "index" and isinstance(f.value, ast.Name) and f.value.id in STRING_GLOBALS and len(e.args) == 1:
+                return "(%s.idxOf %s)" % (self.expr(f.value), self.expr(e.args[0]))     # only reached after `c in STR`
+            if f.attr == "zfill" and len(e.args) == 1:
+                return "(Bip39.zfill %s %s)" % (self.expr(e.args[0]), self.expr(f.value))
+            if f.attr == "findall" and isinstance(f.value, ast.Name) and f.value.id == "re" and len(e.args) == 2:
+                pat = e.args[0]
+                if isinstance(pat, ast.BinOp) and isinstance(pat.op, ast.Mult) and isinstance(pat.left, ast.Constant) \
+                        and pat.left.value == ".":
+                    k, txt = self.expr(pat.right), self.expr(e.args[1])
+                    # re.findall("." * k, s): consecutive non-overlapping k-character chunks, remainder dropped
+                    return "(Bip39.chunksExact %s ((%s).length / %s) %s)" % (k, txt, k, txt)
+                raise Unsupported("re.findall pattern")
+            if f.attr == "join" and isinstance(f.value, ast.Constant) and f.value.value == " " and len(e.args) == 1:
+                return "(Bip39.sentence %s)" % self.expr(e.args[0])
             if f.attr == "to_bytes" and len(e.args) == 2 and isinstance(e.args[1], ast.Constant):
                 fn = {"little": "toBytesLE", "big": "toBytesBE"}[e.args[1].value]
                 if not self.option:
@@ -273,7 +370,8 @@ class Fn:
 
     # ---------------------------------------------------------------- statements
     def ident(self, n):
-        return {"from": "from_", "end": "end_", "at": "at_", "fun": "fun_", "show": "show_"}.get(n, n)
+        return {"from": "from_", "end": "end_", "at": "at_", "fun": "fun_", "show": "show_", "mod": "mod_",
+                "prefix": "prefix_"}.get(n, n)
 
     def ret(self, txt):
         if self.option and txt != "none":
@@ -302,7 +400,23 @@ class Fn:
                     and isinstance(c.func.value, ast.Name):
                 n = self.ident(c.func.value.id)
                 return [ind + "%s := %s ++ [%s]" % (n, n, self.expr(c.args[0]))]
+            if isinstance(c, ast.Call) and isinstance(c.func, ast.Name) and c.func.id in KNOWN_FUNCS and \
+                    KNOWN_FUNCS[c.func.id] in OPTION_FUNCS and self.option:
+                t = self.call(c)            # "(← (f args))": run it for its failure only
+                return [ind + "let _ := %s" % t]
             raise Unsupported("expression statement " + ast.unparse(s))
+        if isinstance(s, ast.Assign) and len(s.targets) == 1 and isinstance(s.targets[0], ast.Tuple) and \
+                isinstance(s.value, ast.Call) and isinstance(s.value.func, ast.Name) and s.value.func.id == "divmod" \
+                and len(s.targets[0].elts) == 2 and all(isinstance(x, ast.Name) for x in s.targets[0].elts):
+            q, r = (x.id for x in s.targets[0].elts)
+            a, b = (self.expr(x) for x in s.value.args)
+            out = [ind + "let divmod_a := %s" % a, ind + "let divmod_b := %s" % b]
+            for n, op in ((q, "/"), (r, "%")):
+                kw = "" if self.is_declared(n) else "let mut "
+                if not self.is_declared(n):
+                    self.declared[-1].add(n)
+                out.append(ind + "%s%s := (divmod_a %s divmod_b)" % (kw, self.ident(n), op))
+            return out
         if isinstance(s, ast.Assign):
             if len(s.targets) != 1 or not isinstance(s.targets[0], ast.Name):
                 raise Unsupported("assignment target " + ast.unparse(s))
@@ -358,6 +472,10 @@ class Fn:
             if isinstance(s.value, ast.Constant) and s.value.value is None:
                 return [ind + "return none" if not self.option else ind + "none"]
             return [ind + self.ret(self.expr(s.value))]
+        if isinstance(s, ast.Break):
+            return [ind + "break"]
+        if isinstance(s, ast.Continue):
+            return [ind + "continue"]
         if isinstance(s, ast.Raise):
             if not self.option:
                 raise Unsupported("raise in total function")
@@ -365,8 +483,10 @@ class Fn:
         raise Unsupported("statement " + type(s).__name__)
 
     def emit(self):
-        args = " ".join("(%s : %s)" % (self.ident(a), t) for a, t in self.args)
+        args = " ".join("(%s : %s)" % (self.ident(a), t) for a, t in list(self.extra) + list(self.args))
         body = self.block(self.node.body, "  ")
+        if self.rettype == "Option Unit":
+            body.append("  return ()")
         if self.option:
             head = "def %s %s : %s := do" % (self.name, args, self.rettype)
         else:
@@ -410,13 +530,14 @@ def translate_all():
             txt = Fn(node, lean, args, ret, opts).emit()
             status[lean] = "ok"
         except Unsupported as e:
-            a = " ".join("(%s : %s)" % (x, t) for x, t in args)
+            a = " ".join("(%s : %s)" % (x, t) for x, t in list(opts.get("extra", [])) + list(args))
             txt = ("-- TRANSLATION FAILED for %s: %s\n"
                    "def %s %s : %s := translationFailed _\n" % (qual, e, lean, a, ret))
             status[lean] = "FAILED: %s" % e
         chunks.append("/-- translated from `%s` : `%s` -/\n%s" % (pyfile, qual, txt))
     hdr = ("-- GENERATED by harness/translate.py from /repo's working tree. Do not edit.\n"
-           "import BtcHd.Model.Bech32\nimport BtcHd.Model.Text\nimport BtcHd.Generated.Misc\n\n"
+           "import BtcHd.Model.Bech32\nimport BtcHd.Model.Text\nimport BtcHd.Model.Bip39\nimport BtcHd.Model.PyBuiltins\n"
+           "import BtcHd.Generated.Misc\nimport BtcHd.Generated.Base58\n\n"
            "set_option linter.unusedVariables false\n\n"
            "namespace BtcHd.Code\nopen BtcHd\n\n"
            "/-- what an untranslatable function becomes: an opaque value nothing can be proved equal to -/\n"
